@@ -850,10 +850,28 @@ func GenWorld(t *sim.Tape, o Options) *World {
 		g.file("/ret0.jet", "ret", "", nil, nil)
 		g.rets = append(g.rets, "/ret0.jet")
 	}
-	var libBlocks []BlockInfo
+	var libBlocks, lib1Blocks []BlockInfo
+	lib1 := false
 	if o.Import && o.Blocks {
 		g.file("/lib/lib0.jet", "lib", "", nil, nil)
 		libBlocks = append(libBlocks, g.f.blocks...)
+		if t.Choose(2) == 1 {
+			// a second block source: files may import both (and define no block themselves)
+			g.file("/lib/lib1.jet", "lib", "", nil, nil)
+			lib1Blocks = append(lib1Blocks, g.f.blocks...)
+			lib1 = true
+		}
+	}
+	// which libs a file imports, and the blocks that makes visible to it
+	libImports := func() ([]string, []BlockInfo) {
+		if lib1 && t.Choose(2) == 1 {
+			both := append(append([]BlockInfo(nil), libBlocks...), lib1Blocks...)
+			if t.Choose(2) == 1 {
+				return []string{"/lib/lib1.jet", "/lib/lib0.jet"}, both
+			}
+			return []string{"/lib/lib0.jet", "/lib/lib1.jet"}, both
+		}
+		return []string{"/lib/lib0.jet"}, libBlocks
 	}
 	if o.Include {
 		n := t.Range(1, 2)
@@ -865,8 +883,7 @@ func GenWorld(t *sim.Tape, o Options) *World {
 			var imps []string
 			vis := []BlockInfo(nil)
 			if len(libBlocks) > 0 && t.Choose(2) == 1 {
-				imps = []string{"/lib/lib0.jet"}
-				vis = libBlocks
+				imps, vis = libImports()
 			}
 			g.file(p, "inc", "", imps, vis)
 			g.incs = append(g.incs, p)
@@ -877,8 +894,7 @@ func GenWorld(t *sim.Tape, o Options) *World {
 		var imps []string
 		vis := []BlockInfo(nil)
 		if len(libBlocks) > 0 && t.Choose(2) == 1 {
-			imps = []string{"/lib/lib0.jet"}
-			vis = libBlocks
+			imps, vis = libImports()
 		}
 		g.file("/base.jet", "base", "", imps, vis)
 		baseBlocks = g.f.blocks
@@ -896,8 +912,7 @@ func GenWorld(t *sim.Tape, o Options) *World {
 			var imps []string
 			vis := []BlockInfo(nil)
 			if len(libBlocks) > 0 && t.Choose(2) == 1 {
-				imps = []string{"/lib/lib0.jet"}
-				vis = libBlocks
+				imps, vis = libImports()
 			}
 			role := "main"
 			if o.TargetTry && i == nm-1 {
